@@ -12,7 +12,7 @@ from harness.common import mk_element, run_soft, int_literal, fake_ctx
 
 from spyne import Application, Service, rpc, ComplexModel
 from spyne.model.primitive import (Integer, UnsignedInteger, Integer8, Integer16, Integer32, Integer64,
-    UnsignedInteger8, UnsignedInteger16, UnsignedInteger32, UnsignedInteger64, Unicode, Boolean, Decimal)
+    UnsignedInteger8, UnsignedInteger16, UnsignedInteger32, UnsignedInteger64, Unicode, Boolean, Decimal, Double, Float)
 from spyne.model.binary import ByteArray
 from spyne.protocol.xml import XmlDocument
 from spyne.interface.xml_schema import XmlSchema
@@ -47,7 +47,7 @@ class Holder(ComplexModel):
     __namespace__ = TNS
     _type_info = [(n, t.customize(min_occurs=0) if t.Attributes.min_occurs == 0 else t) for n, t in LEAVES] + \
                  [('occ_%s_%s' % g, Integer(min_occurs=g[0], max_occurs=g[1])) for g in OCC if g[0] == 0] + \
-                 [('hexbin', ByteArray(encoding='hex')), ('b64bin', ByteArray)] + NIL_LEAVES
+                 [('hexbin', ByteArray(encoding='hex')), ('b64bin', ByteArray)] + NIL_LEAVES + [('dbl', Double), ('flt', Float)]
 
 
 def _occ_holder(g):
@@ -298,6 +298,24 @@ def emitted_text_is_valid(sx, name):
     sx.observe('text', text)
     if sx.symbolic:
         return xsd_accepts_text(sx, decl, text)
+    return lxml_accepts(name, [text])
+
+
+DOUBLES = [float('inf'), float('-inf'), float('nan'), 0.0, -0.0, 1e308, 5e-324, 1e22, 1e-7, 0.1, -2.5, 123456789.0]
+
+
+@harness('C06', params=['dbl', 'flt'], functions=['spyne.protocol._outbase.OutProtocolBase.double_to_unicode',
+                                                 'spyne.interface.xml_schema.model.simple_add'],
+         bounds={'values': 'enumeration, no symbolic input (binary floating point is outside the engine): both infinities, NaN, signed '
+                           'zeros, the extremes of the double range and a few ordinary values, for a Double and a Float member'})
+def emitted_double_is_valid(sx, name):
+    """what spyne writes for a double or float member - the special values included - is valid against the published schema"""
+    v = sx.choose('value', DOUBLES)
+    T = Holder._type_info[name]
+    text = OUT.to_unicode(T, v)
+    sx.observe('text', text)
+    if sx.symbolic:
+        return re.fullmatch(r'[+-]?([0-9]+(\.[0-9]*)?|\.[0-9]+)([Ee][+-]?[0-9]+)?|-?INF|NaN', text) is not None
     return lxml_accepts(name, [text])
 
 
